@@ -33,7 +33,8 @@ PROP = dict(
                        "Comdex.C01.interestCalc_effects", "Comdex.C01.close_runs_ops", "Comdex.C01.repay_runs_ops", "Comdex.C01.create_runs_ops",
                        "Comdex.C01.deposit_runs_ops", "Comdex.C01.withdraw_runs_ops", "Comdex.C01.draw_runs_ops",
                        "Comdex.C01.vault_all_classified", "Comdex.C01.vault_writes_after_bank", "Comdex.C01.vault_own_writes",
-                       "Comdex.C01.vault_table_shape", "Comdex.C01.custody_go_all", "Comdex.C01.seize_effects", "Comdex.C01.esm_effects"],
+                       "Comdex.C01.vault_table_shape", "Comdex.C01.custody_go_all", "Comdex.C01.seize_effects", "Comdex.C01.esm_effects",
+                       "Comdex.C01.sweep_cached", "Comdex.C01.esm_pins"],
     harness_tests=["TestC01"],
     monitors=["custody_eq", "count_eq", "totals_eq"],
     trusted_base=[KERNEL_TB, HARNESS_TB, DEC_TB, VAULT_TB, EFFECTS_TB],
